@@ -153,6 +153,7 @@ func (db *SingleBucketBackend) getBucketWithFilePrefixLocked(bucket string, pref
 		}
 	}
 
+	sortObjectList(response)
 	return response, nil
 }
 
@@ -189,6 +190,7 @@ func (db *SingleBucketBackend) getBucketWithArbitraryPrefixLocked(bucket string,
 		return nil, err
 	}
 
+	sortObjectList(response)
 	return response, nil
 }
 
